@@ -6,19 +6,23 @@ def run(ctx):
     q = ctx.tier == "quick"
     ctx.rule = ("Timeouts.tla: connections walk the phases of their listener stacking (plain, TLS, PROXY, PROXY+TLS, MITM) with a "
                 "discrete clock and per-phase limits, peers stall in any phase, the accept loop hands connections over; TLC "
-                "checks NotClosedBefore / ClosedAtLimit / SlowOriginNeverCloses / LoopNeverBlocks / ProbeNotClosed (and that "
+                "checks (entered = when a phase really began vs since = what the deadline is computed from) NotClosedBefore / ClosedAtLimit / SlowOriginNeverCloses / LoopNeverBlocks / ProbeNotClosed (and that "
                 "evaluating RemoteAddr() in the accept loop violates LoopNeverBlocks) and exports every (stacking, phase) case. "
                 "The harness stalls 3 real peers in that phase (with and without partial bytes) against real proxies with four "
-                "distinct limits, times the close against the last byte sent (lower bound, 3 s upper slack), runs a "
+                "distinct limits - also after sitting out the idle waits on the way for longer than the read-header limit and sending heads in two pieces (dwell; deadline-base mutant HeadFromWaitStart) -, times the close against the last byte sent (lower bound, 3 s upper slack), runs a "
                 "well-behaved client meanwhile, and a slow-origin exchange per stacking. Non-trivial = every case.")
     ctx.mc("Timeouts.tla", "MC_Timeouts_Q.cfg" if q else "MC_Timeouts.cfg", timeout=1800)
+    for m in ("MC_Timeouts_bug.cfg", "MC_Timeouts_headbase.cfg"):
+        ok, _, _, _ = ctx.mc("Timeouts.tla", m, expect_ok=False)
+        if ok:
+            raise vlib.Infra("Timeouts mutant %s not detected by the model" % m)
     binp = ctx.build()
     recs, g, d, _ = ctx.gen("Timeouts.tla", "GEN_Timeouts.cfg")
     out = ctx.run_vh(binp, ["c15"], cases=recs, timeout=1800)
     out, crashed = ctx.nocrash(out, "C15:crash")
     for r in out:
         ctx.evaluations += 1
-        ctx.nontrivial.add("%s:%s:%s:%s" % (r["kind"], r["stacking"], r.get("at"), r.get("partial")))
+        ctx.nontrivial.add("%s:%s:%s:%s:%s" % (r["kind"], r["stacking"], r.get("at"), r.get("partial"), r.get("dwell")))
         if not r["ok"]:
             w = r["why"]
             k = ("probe-delayed" if "well-behaved" in w else "closed-early" if "before its limit" in w else
